@@ -293,10 +293,24 @@ pub struct ReplayFile {
     /// human-readable delivered events / fault trace of the minimised scenario
     pub trace: Vec<String>,
     pub scenario: Scenario,
+    /// runs (same seed / property / tier) executed in the same process before the scenario: only filled when the
+    /// violation does not occur in a fresh process, i.e. it depends on state the library kept from earlier ontologies
+    #[serde(default)]
+    pub history: Vec<u64>,
+    #[serde(default)]
+    pub thorough: bool,
 }
 
 /// Minimise, re-confirm, write the replay file. Returns its path and the file content.
-pub fn make_replay(prop: &str, seed: u64, found: &Found, thorough: bool) -> Option<(String, ReplayFile)> {
+/// Does `hposim replay <path>` in a FRESH process report the recorded class?
+fn confirms_in_fresh_process(path: &str, class: &str) -> bool {
+    let Ok(exe) = std::env::current_exe() else { return false };
+    let Ok(o) = Command::new(exe).arg("replay").arg(path).stderr(Stdio::null()).output() else { return false };
+    let text = String::from_utf8_lossy(&o.stdout);
+    o.status.code() == Some(1) && text.lines().any(|l| l.trim() == format!("class={class}"))
+}
+
+pub fn make_replay(prop: &str, seed: u64, found: &Found, thorough: bool, workers: u64) -> Option<(String, ReplayFile)> {
     let s0 = generate(prop, seed, found.run, thorough);
     let mut ctx = Ctx::new(false);
     let size0 = s0.facts.size() + s0.replicas.len() + s0.ops.len() + s0.edits.len();
@@ -314,7 +328,7 @@ pub fn make_replay(prop: &str, seed: u64, found: &Found, thorough: bool) -> Opti
         None => (s0, found.detail.clone(), found.class.clone()), // minimised form did not confirm: keep the original
     };
     let size1 = s.facts.size() + s.replicas.len() + s.ops.len() + s.edits.len();
-    let rf = ReplayFile {
+    let mut rf = ReplayFile {
         property: prop.to_string(),
         class: v_class,
         detail: v_detail,
@@ -325,6 +339,8 @@ pub fn make_replay(prop: &str, seed: u64, found: &Found, thorough: bool) -> Opti
         minimiser_executions: execs,
         trace: tctx.trace.clone().unwrap_or_default(),
         scenario: s,
+        history: vec![],
+        thorough,
     };
     let dir = format!("{}/replays", out_dir());
     let _ = std::fs::create_dir_all(&dir);
@@ -332,6 +348,49 @@ pub fn make_replay(prop: &str, seed: u64, found: &Found, thorough: bool) -> Opti
     let path = format!("{dir}/{prop}-{seed}-{}-{cls}.json", found.run);
     std::fs::write(&path, serde_json::to_string_pretty(&rf).ok()?).ok()?;
     ctx.cleanup();
+    // The file must reproduce in a fresh process. The minimiser ran many executions in THIS process; if the library
+    // keeps state between ontologies (a static cache, say) the minimised form may only fail here. Fall back step by
+    // step: the unminimised scenario alone, then the scenario preceded by the runs its worker had executed before it
+    // (shortest reproducing suffix of that history).
+    if !confirms_in_fresh_process(&path, &rf.class) {
+        rf.scenario = generate(prop, seed, found.run, thorough);
+        rf.class = found.class.clone();
+        rf.detail = found.detail.clone();
+        rf.minimised_size = size0;
+        rf.trace = vec![];
+        std::fs::write(&path, serde_json::to_string_pretty(&rf).ok()?).ok()?;
+        if !confirms_in_fresh_process(&path, &rf.class) && workers > 0 {
+            let k = found.run % workers;
+            let full: Vec<u64> = (0..).map(|i| k + i * workers).take_while(|r| *r < found.run).collect();
+            let mut best: Option<Vec<u64>> = None;
+            let mut len = 1usize;
+            loop {
+                let take = len.min(full.len());
+                let hist = full[full.len() - take..].to_vec();
+                rf.history = hist.clone();
+                std::fs::write(&path, serde_json::to_string_pretty(&rf).ok()?).ok()?;
+                if confirms_in_fresh_process(&path, &rf.class) {
+                    best = Some(hist);
+                    break;
+                }
+                if take == full.len() {
+                    break;
+                }
+                len *= 4;
+            }
+            match best {
+                Some(h) => {
+                    rf.history = h;
+                    rf.detail = format!("{} [occurs only after {} earlier run(s) in the same process: the library keeps state between ontologies]", rf.detail, rf.history.len());
+                }
+                None => {
+                    rf.history = vec![];
+                    rf.detail = format!("{} [NOT reproduced in a fresh process, neither alone nor after the worker's earlier runs]", rf.detail);
+                }
+            }
+            std::fs::write(&path, serde_json::to_string_pretty(&rf).ok()?).ok()?;
+        }
+    }
     Some((path, rf))
 }
 
